@@ -140,9 +140,15 @@ func init() {
 		ID: "C10", Quick: 12000, Thorough: 600000, Level: "exploration",
 		Rule: "writers updating 1-4 columns of the same stable rows (also multi-block) park at the three in-commit hooks while holding the write latch; readers use QueryAt, Range and yield between two column reads inside one callback while holding the read latch; oracle: every value read inside a callback equals the model's committed state, which changes atomically per (transaction, block) under the write latch, so any mixture of two committed states of a row is a mismatch; non-trivial = at least one commit and one real scheduling choice; distinct = distinct (interleaving signature, end state)",
 		Gen: func(seed uint64, run int, tier string) *Case {
-			return genConc("C10", seed, run, concProfile{minWriters: 1, maxWriters: 3, minReaders: 1, maxReaders: 3, maxTxns: 3, maxOps: 3,
-				wUpdate: 10, wMerge: 3, wInsert: 1, wDeleteOwn: 1, wRangeRead: 5, wRangeWrite: 2, wPointRead: 6,
-				pAbort: 0.05, multiBlock: 0.4, maxCols: 5, stableRows: [2]int{1, 4}, farBlocks: 0.03}, knownAvoid("C10", seed, run))
+			prof := concProfile{minWriters: 1, maxWriters: 3, minReaders: 1, maxReaders: 3, maxTxns: 3, maxOps: 3,
+				wUpdate: 10, wMerge: 3, wInsert: 3, wDeleteOwn: 3, wRangeRead: 5, wRangeWrite: 2, wPointRead: 6,
+				pAbort: 0.05, multiBlock: 0.4, maxCols: 5, stableRows: [2]int{1, 4}, farBlocks: 0.03}
+			if run%4 == 3 {
+				// churn flavour: rows come and go beside the readers (offsets are reused while the delete
+				// of their previous occupant is still being committed; inserts open new blocks)
+				prof.minWriters, prof.maxTxns, prof.wUpdate, prof.wInsert, prof.wDeleteOwn, prof.nearlyFull = 2, 4, 4, 10, 8, 0.5
+			}
+			return genConc("C10", seed, run, prof, knownAvoid("C10", seed, run))
 		},
 		Exec: func(cs *Case) *World { return runConc(cs, concOracles{}) },
 		Real: realComponents, Stub: concStub,
@@ -184,7 +190,7 @@ func init() {
 				return &Case{Prop: "C13", World: "biglog", Seed: seed, Run: run,
 					Schema: []ColSpec{{Name: "expire", Kind: KInt64}, {Name: "a", Kind: KString}, {Name: "b", Kind: KInt64}},
 					Cfg: Config{Capacity: 1024, Prefill: &Prefill{Blocks: 2, KeepFull: []int{0, 1}},
-						Params: map[string]int{"str_len": r.Range(30, 70), "rows": []int{16384, 16384, 12000}[r.Intn(3)]}}}
+						Params: map[string]int{"str_len": r.Range(30, 130), "rows": []int{16384, 16384, 12000}[r.Intn(3)]}}}
 			}
 			prof := concProfile{minWriters: 1, maxWriters: 3, maxTxns: 3, maxOps: 3, snapshots: 1,
 				wUpdate: 8, wMerge: 3, wInsert: 3, wDeleteOwn: 2, wRangeWrite: 1,
@@ -356,11 +362,11 @@ func init() {
 	})
 	register(&PropDef{
 		ID: "C07", Quick: 6000, Thorough: 300000, Level: "exploration",
-		Rule: "single-client histories with repeated restart steps: Snapshot to a SimFile, Restore through a seeded chunking reader (1 byte .. whole) into a fresh collection with the same schema (indexes created before or after), swap it in and continue the history against the same model; after every step the full dump (values, Count, indexes, keys) is compared and every insert offset is checked against the model's live set; " + ruleSeq,
+		Rule: "single-client histories with repeated restart steps: Snapshot of a collection that may carry bitmap indexes, sorted indexes and triggers to a SimFile, Restore through a seeded chunking reader (1 byte .. whole) into a fresh collection with the same schema (indexes and sorted indexes created before or after), swap it in and continue the history against the same model; after every step the full dump (values, Count, indexes, keys) is compared and every insert offset is checked against the model's live set; " + ruleSeq,
 		Gen: func(seed uint64, run int, tier string) *Case {
-			p := seqProfile{minSteps: 5, maxSteps: 24, wTxn: 16, wRestart: 5, wCreateIndex: 1,
-				wInsert: 8, wAt: 8, wRange: 2, wDelete: 3, wDeleteAll: 1, wKey: 8,
-				pAbort: 0.05, pMerge: 0.3, maxCols: 10, multiBlock: 0.6, pKeyCol: 0.3, indexes: true}
+			p := seqProfile{minSteps: 5, maxSteps: 24, wTxn: 16, wRestart: 5, wCreateIndex: 1, wCreateSort: 1, wCreateTrig: 1, wDropTrig: 1,
+				wInsert: 8, wAt: 8, wRange: 2, wDelete: 3, wDeleteAll: 1, wKey: 8, wAscend: 1,
+				pAbort: 0.05, pMerge: 0.3, maxCols: 10, multiBlock: 0.6, pKeyCol: 0.3, indexes: true, sorts: true, triggers: true}
 			return genSeq("C07", seed, run, p, knownAvoid("C07", seed, run))
 		},
 		Exec: func(cs *Case) *World { return runSeq(cs, seqOracles{dump: true}) },
@@ -414,7 +420,7 @@ func init() {
 		ID: "C16", Quick: 8000, Thorough: 400000, Level: "exploration",
 		Rule: "single-client histories over a 5-letter string alphabet (forces equal keys) across several blocks with sorted indexes created before or after the data, overwrites to an existing value, merges, delete-then-reinsert, combined with generated filter chains; every Ascend sequence must contain exactly the selected rows holding a value, each once, in non-decreasing order of the model's current values; every third run (part B) creates sorted indexes on a populated multi-block collection while 1-3 writers commit (yield point before each block of the back-fill) and checks a full Ascend at quiescence; " + ruleSeq,
 		Gen: func(seed uint64, run int, tier string) *Case {
-			p := seqProfile{minSteps: 5, maxSteps: 28, wTxn: 20, wCreateSort: 4, wDropSort: 1, wCreateIndex: 1,
+			p := seqProfile{minSteps: 5, maxSteps: 28, wTxn: 20, wCreateSort: 4, wDropSort: 1, wCreateIndex: 1, wRestart: 1,
 				wInsert: 8, wAt: 8, wRange: 2, wDelete: 4, wDeleteAll: 1, wAscend: 10,
 				pAbort: 0.05, pMerge: 0.3, maxCols: 4, multiBlock: 0.4, indexes: true, filters: true, smallStrings: true, sorts: true,
 				forceKinds: []Kind{KString, KEnum}}
@@ -436,7 +442,7 @@ func init() {
 	})
 	register(&PropDef{
 		ID: "C19", Quick: 10000, Thorough: 400000, Level: "exploration",
-		Rule: "single-client histories of puts, merges (incl. length-changing string/record merges), row deletes and rollbacks over several blocks with triggers created and dropped mid-history; after every transaction the callback log is compared, per trigger and row, with the model's committed stores (issue order, value after merge) and deletions; odd runs (part B) create and drop triggers (several on one column) from a schema thread while 1-3 writers commit: a block commit lying inside a trigger's life (latch taken after the creation, released before the drop) must be reported to it exactly, one that ended before the creation or started after the drop not at all, overlapping ones are not judged; " + ruleSeq,
+		Rule: "single-client histories of puts, merges (incl. length-changing string/record merges), row deletes and rollbacks over several blocks with triggers created and dropped mid-history; after every transaction the callback log is compared, per trigger and row, with the model's committed stores (issue order, value after merge) and deletions, and so is the callback log of a replica that is fed the emitted commits (cloned) and carries the same triggers; odd runs (part B) create and drop triggers (several on one column) from a schema thread while 1-3 writers commit: a block commit lying inside a trigger's life (latch taken after the creation, released before the drop) must be reported to it exactly, one that ended before the creation or started after the drop not at all, overlapping ones are not judged; " + ruleSeq,
 		Gen: func(seed uint64, run int, tier string) *Case {
 			p := seqProfile{minSteps: 5, maxSteps: 28, wTxn: 20, wCreateTrig: 5, wDropTrig: 2,
 				wInsert: 8, wAt: 10, wRange: 3, wDelete: 4, wDeleteAll: 1,
@@ -453,7 +459,7 @@ func init() {
 			if cs.World == "conc" {
 				return runConc(cs, concOracles{})
 			}
-			return runSeq(cs, seqOracles{dump: true, triggers: true})
+			return runSeq(cs, seqOracles{dump: true, triggers: true, trigRep: true})
 		},
 		Real: realComponents, Stub: seqStub,
 	})
